@@ -54,11 +54,8 @@ def run(ctx):
     ]
     index.func("cdd.shared.parse.utils.parser_utils.merge_params")
     index.func("cdd.shared.ast_utils.infer_imports")
-    _setorder(ctx)
-    _mutdefault(ctx)
-    _modstate(ctx)
-    _crossmod(ctx)
-    _nondet(ctx)
+    for rule in (_setorder, _mutdefault, _modstate, _crossmod, _nondet):
+        ctx.section(rule, ctx)
 
 
 def _setorder(ctx):
